@@ -2,6 +2,7 @@ package chsql
 
 import (
 	"bufio"
+	"errors"
 	"os"
 	"strings"
 	"testing"
@@ -47,5 +48,43 @@ func TestCorpusParses(t *testing.T) {
 	t.Logf("corpus: %d statements, %d parse failures", total, failed)
 	if total < 150 {
 		t.Fatalf("corpus too small: %d", total)
+	}
+}
+
+// Every corpus statement executes against the empty qryn schema without ErrUnsupported
+// (a RaiseError is a legitimate outcome: ClickHouse itself rejects some of the captured statements).
+func TestCorpusExecutes(t *testing.T) {
+	total, unsupportedN, raised, ok := 0, 0, 0, 0
+	raises := map[string]int{}
+	for fi, file := range corpusFiles {
+		db := QrynSchema(fi == 1)
+		db.StrictTypes = true
+		for _, sql := range corpusStatements(t, file) {
+			total++
+			_, err := db.Exec(sql)
+			var re *RaiseError
+			switch {
+			case err == nil:
+				ok++
+			case errors.As(err, &re):
+				raised++
+				raises[re.Rule+": "+re.Msg]++
+			default:
+				unsupportedN++
+				if unsupportedN <= 10 {
+					t.Errorf("not executed: %v\n  %s", err, sql)
+				}
+			}
+		}
+		if c := db.HashCollisions(); len(c) > 0 {
+			t.Errorf("hash collisions: %v", c)
+		}
+	}
+	for k, n := range raises {
+		t.Logf("raise ×%d: %s", n, k)
+	}
+	t.Logf("corpus: %d statements, %d executed, %d raise (ClickHouse would reject), %d unsupported", total, ok, raised, unsupportedN)
+	if unsupportedN != 0 {
+		t.Fatalf("%d corpus statements could not be executed", unsupportedN)
 	}
 }
